@@ -15,7 +15,7 @@ func init() {
 			"(R3) every error-typed result of a call on the stream path (root package, reachable from Stream or the reader) is tested and its non-nil edge ends in a return whose error derives from it " +
 			"(one named exception: the best-effort dc.Close()); (R4) the packet decoder wraps exactly the ReadPacket error, the master's error packet (HandleErrorPacket) under buf[0]==PacketERR, and produces " +
 			"the EOF sentinel only under buf[0]==PacketEOF; the sentinel is referenced nowhere else but Error(); (R5) the reader sends its reason before closing either channel; (R6) Error() returns nil on " +
-			"the received-value path only through equality tests against the sentinels context.Canceled / errStreamEOF, otherwise the received error itself. " +
+			"the received-value path only through equality tests against the sentinels context.Canceled / errStreamEOF, otherwise the received error itself; (R7) the context that filter inspects is the caller's own (Stream's parameter), never one Stream derives and cancels. " +
 			"Not decided: timing - Error() also filters when the caller's context is found cancelled at call time even if the stream had ended earlier for another reason (pinned by TestStreamer_Error).",
 		Rule:        "instances = exits of the parser and of Stream, error-returning call sites on the stream path, exits of the packet decoder, nil-returning paths of Error()",
 		Trusted:     append([]string{"driver facts (DESIGN 2): ReadPacket never returns an empty slice with a nil error; HandleErrorPacket decodes the master's code and message"}, commonTrusted...),
@@ -47,6 +47,9 @@ func init() {
 			Old: "\t\t\t\t_log.Errorf(\"startDumpFromBinlogPosition readBinlogEvent fail. reason: %v\", err)\n\t\t\t\ts.errChan <- err\n\t\t\t\tclose(s.errChan)\n",
 			New: "\t\t\t\t_log.Errorf(\"startDumpFromBinlogPosition readBinlogEvent fail. reason: %v\", err)\n\t\t\t\tclose(eventChan)\n\t\t\t\ts.errChan <- err\n\t\t\t\tclose(s.errChan)\n",
 			Expect: "C06-R5 close-order@"},
+		Variant{ID: "c06-r7-derived-ctx-kept", Prop: "C06", File: "streamer.go",
+			Old: "\ts.ctx = ctx\n\tctx, cancel := context.WithCancel(ctx)\n\tdefer cancel()\n", New: "\tctx, cancel := context.WithCancel(ctx)\n\tdefer cancel()\n\ts.ctx = ctx\n",
+			Expect: "C06-R7 filter-ctx@Stream"},
 		Variant{ID: "c06-r6-filter-all-after-cancel", Prop: "C06", File: "streamer.go",
 			Old: "\t\t\tcase err.Original() == context.Canceled,\n\t\t\t\terr.Original() == errStreamEOF:", New: "\t\t\tcase err.Original() == context.Canceled,\n\t\t\t\terr.Original() == errStreamEOF, err.Original() != nil && len(err.msg) > 64:",
 			Expect: "C06-R6 nil-path@Error"},
@@ -65,6 +68,7 @@ func runC06(a *A) {
 	c06R4(a, r)
 	c05R4(a, r, "C06-R5")
 	c06R6(a, r)
+	c06R7(a, r)
 }
 
 func c06R1(a *A, r *Roles, ar *Arms) {
@@ -415,6 +419,42 @@ func c06R4(a *A, r *Roles) {
 					a.check(ok, rule, fmt.Sprintf("sentinel-use@%s#%d", fn.Name(), m), w.posOf(in), "sentinel used by the EOF classification / the filter", "the EOF sentinel is produced or compared somewhere else: another ending can masquerade as the master's EOF")
 				}
 			}
+		})
+	}
+}
+
+// R7: the cancellation filter of Error() looks at the caller's context, not at one Stream itself cancels.
+func c06R7(a *A, r *Roles) {
+	const rule = "C06-R7"
+	w := a.W
+	st := w.namedType(w.Root, "Streamer").Underlying().(*types.Struct)
+	var ctxField *types.Var
+	for i := 0; i < st.NumFields(); i++ {
+		if namedIs(st.Field(i).Type(), "context", "Context") {
+			ctxField = st.Field(i)
+		}
+	}
+	if ctxField == nil {
+		a.info(rule, "filter-ctx", "-", "Streamer keeps no context: Error() cannot filter on it")
+		return
+	}
+	n := 0
+	for _, f := range w.srcFuncs(w.Root) {
+		instrs(f, func(in ssa.Instruction) {
+			s, ok := in.(*ssa.Store)
+			if !ok || !isFieldAddrOf(s.Addr, ctxField) {
+				return
+			}
+			n++
+			v := resolve(s.Val)
+			p, isParam := v.(*ssa.Parameter)
+			okv := f == r.Stream && isParam && p.Parent() == r.Stream
+			desc := describe(v)
+			if _, der := ctxDerivation(v); der {
+				desc = "a context derived (and cancelled) by Stream itself"
+			}
+			a.check(okv, rule, fmt.Sprintf("filter-ctx@%s#%d", f.Name(), n), w.posOf(s), "Error()'s cancellation filter sees the caller's own context",
+				"the context Error() inspects is "+desc+", not the caller's: Stream cancels its derived context on every return, so Error() then treats every ending - lost connection, master error - as a caller cancellation and returns nil")
 		})
 	}
 }
